@@ -367,8 +367,14 @@ func newExec() *exec {
 	// B authenticates the documented way
 	r := must(x, "B.Nonce", x.call(x.b, 1, cspipe.Cmd(byte(commands.Nonce)), true))
 	nb := r.r.Str()
-	r = must(x, "B.Auth", x.call(x.b, 1, cspipe.Cmd(byte(commands.Auth)).Str(authString(user, passhash, nb)), true))
-	if x.infraError == "" && !r.r.Bool() {
+	r = x.call(x.b, 1, cspipe.Cmd(byte(commands.Auth)).Str(authString(user, passhash, nb)), true)
+	if r.closed {
+		x.infraError = "connection closed during the legitimate authentication of B"
+	} else if !r.ok {
+		// e.g. "already authorized": then B can do the rest of the setup anyway
+		// and the requests of A show the violation; otherwise the setup fails below
+		x.note("setup: Auth of B answered with an error: " + r.errText)
+	} else if !r.r.Bool() {
 		x.infraError = "legitimate authentication of B returned false"
 	}
 	must(x, "B.SessionId", x.call(x.b, 1, cspipe.Cmd(byte(commands.SessionId)).Str("sessB"), true))
